@@ -79,9 +79,12 @@ WClose(w) ==
     /\ wr' = Del(wr, w)
     /\ UNCHANGED <<rd, us, mg, so, fs, it, pl, judge>>
 \* bytes of a pre-existing file are untouched by a refused mtbl_writer_init (C08); h is a hash logged by the harness
-FileHash(path, h) ==
+FileHash(path, h, exists) ==
     /\ (path \in DOMAIN disk /\ disk[path].kind = "other" /\ "h" \in DOMAIN disk[path]) => disk[path].h = h
+    /\ (path \in DOMAIN disk /\ disk[path].kind = "absent") => ~exists        \* nothing was created there
     /\ UNCHANGED vars
+\* a path known not to exist (e.g. the target of a dangling symbolic link): no call may create it
+MkAbsent(path) == disk' = Upd(disk, path, [kind |-> "absent"]) /\ UNCHANGED <<wr, rd, us, mg, so, fs, it, pl, judge>>
 
 \* ------------------------------------------------------------------ the file as bytes (C09) and its trailer (C10)
 FF == INSTANCE FileFormat
